@@ -8,7 +8,7 @@ CONF = {
     'shrink_keep_first': 1,
     'assumptions': ['Go slice semantics as modelled (slices checked against len, stricter than cap)',
                     'gopacket.LayerString/LayerDump/LayerGoString total on non-nil layers (reflective); enum String methods are table/switch lookups',
-                    'USB and USBRequestBlockSetup have no SerializeTo: C06 and C07 do not apply; USBControl/USBInterrupt/USBBulk (Contents = data) are not modelled',
+                    'USB and USBRequestBlockSetup have no SerializeTo: C06 and C07 do not apply; USBControl/USBInterrupt/USBBulk (Contents = data) are the sub-check Lusbsub',
                     'USBTransportType.LayerType table abstract (next = the type octet unless Setup)'],
     'trusted_base': ['model: coq/Model/LusbModel.v is a hand transcription of layers/usb.go:131-233 as repaired'],
     'explanation': 'Theorems over all byte strings about the Gallina models of the usbmon header and USB setup block decoders; correspondence ties them to layers/usb.go.',
